@@ -122,12 +122,18 @@ static void gen_inot(int tier)
 		for (j = 0; j < n && nw < 38; j++) {
 			int w = gx_add_obj(K_WATCH, 0);
 			G->obj[w].p[0] = in;
-			/* an inode is watched by one instance only: the kernel orders the marks of several groups on
-			 * one inode by group address, which would make the order of the two instances' events (and
-			 * so the run) irreproducible */
-			G->obj[w].p[1] = (R(8) / ninst) * ninst + i;
-			if (G->obj[w].p[1] > 7)
-				G->obj[w].p[1] = i;
+			/* Instances never watch related inodes (the same one, or a directory and an entry in it):
+			 * the kernel delivers one filesystem event to all interested groups in the order of the
+			 * groups' addresses, so the relative order of two instances' records would not be
+			 * reproducible.  Paths form three unrelated families: d0 and its files, d1 and its file,
+			 * the top directory and its files. */
+			{
+				static const int fam[3][3] = { { 0, 1, 2 }, { 3, 4, 4 }, { 5, 6, 7 } };
+				int f = R(3);
+				if (ninst > 1)
+					f = (i == 0) ? (P(50) ? 0 : 2) : 1;
+				G->obj[w].p[1] = fam[f][R(3)];
+			}
 			G->obj[w].p[2] = masks[R(7)];
 			watches[nw++] = w;
 			if (P(80))
